@@ -236,6 +236,10 @@ impl<'a> Walk<'a> {
     }
 
     fn claim(&mut self, id: u64, n: u64, tag: u8, what: &str) -> bool {
+        if n > self.num_pages || id.saturating_add(n) > self.num_pages {
+            self.err(format!("{}: page run {}+{} reaches past the high-water mark {}", what, id, n.saturating_sub(1), self.num_pages));
+            return false;
+        }
         let mut ok = true;
         for p in id..id.saturating_add(n) {
             if p < 2 && tag != O_META {
